@@ -22,7 +22,7 @@ Bytes gen_document(Rng &rd, int tier, int &root_kind, Node *tree_out, bool &vali
     unsigned cls = (unsigned)rd.below(100);
     k.max_nodes = cls < 35 ? 1 + (int)rd.below(6) : cls < 85 ? 4 + (int)rd.below(18) : 15 + (int)rd.below(tier ? 80 : 30);
     k.alphabet = (int)rd.below(3);
-    k.long_strings = rd.chance(1, 14) ? (rd.chance(1, tier ? 3 : 8) ? (rd.chance(1, 4) ? 3 : 2) : 1) : 0;
+    k.long_strings = rd.chance(1, 8) ? (rd.chance(1, tier ? 3 : 4) ? (rd.chance(1, 5) ? 3 : 2) : 1) : 0;
     k.p_container = 20 + (int)rd.below(45);
     k.p_empty = 10 + (int)rd.below(40);
     k.max_obj_depth = 1 + (int)rd.below(6);
